@@ -265,7 +265,7 @@ func (e *env) buildTree() error {
 
 func (e *env) calBackend(prefix string) *doubles.CalBackend {
 	l := calLayout(prefix)
-	return &doubles.CalBackend{Principal: l.Principal, HomeSet: l.Home,
+	return &doubles.CalBackend{Principal: l.Principal, HomeSet: l.Home, LenientSlash: true,
 		Calendars: []caldav.Calendar{{Path: l.Coll, Name: "Work", Description: "work things", MaxResourceSize: 1 << 20, SupportedComponentSet: []string{"VEVENT", "VTODO"}}},
 		Objects:   []caldav.CalendarObject{{Path: l.Obj, ModTime: fixedTime, ContentLength: int64(len(seedICalEvent)), ETag: "etag-e1", Data: e.cal}},
 	}
